@@ -61,7 +61,7 @@ let run_val (id : string) (fields : t list) : string =
            let sp = List.map (fun i ->
              match M.spec_valid (re_match rx) fuel_big env (M.den i) with
              | Some true -> "V" | Some false -> "I" | None -> "F") insts in
-           Printf.sprintf "%s unm=ok res=ok calls=%s v=%s spec=%s%s" id
+           Printf.sprintf "%s unm=ok res=ok calls=%s v=%s spec_v=%s%s" id
              (String.concat "," (List.map ints_of_str calls)) (String.concat "" vs) (String.concat "" sp)
              (if rx.miss > 0 then Printf.sprintf " rxmiss=%d" rx.miss else "")
        | r -> Printf.sprintf "%s unm=ok res=%s" id (res_tag r))
@@ -96,6 +96,18 @@ let run_marshal (id : string) (fields : t list) : string =
   | M.Ok d -> Printf.sprintf "%s out=ok doc=%s spec_order=%s" id (jdoc_to_string d) (spec_orders s)
   | r -> Printf.sprintf "%s out=%s" id (res_tag r)
 
+(* family equal: pairs of Go values -> equalValue (model), JSON equality of the denotations
+   (specification), and whether the two hash streams coincide (then the hashes must) *)
+let run_equal (id : string) (fields : t list) : string =
+  let pairs = List.map (fun p -> match list p with [a; b] -> (gv_of_sexp a, gv_of_sexp b) | _ -> failwith "pair") (list (field "pairs" fields)) in
+  let tf b = if b then "T" else "F" in
+  let eq = String.concat "" (List.map (fun (a, b) -> tf (M.equalValue a b)) pairs) in
+  let sp = String.concat "" (List.map (fun (a, b) -> tf (M.json_eqb (M.den a) (M.den b))) pairs) in
+  let all_streams_eq = List.for_all (fun (a, b) -> (not (M.equalValue a b)) || M.hash_stream a = M.hash_stream b) pairs in
+  (* hash law on the implementation: only required where the model's streams coincide *)
+  let need = String.concat "" (List.map (fun (a, b) -> if M.hash_stream a = M.hash_stream b then "T" else "?") pairs) in
+  Printf.sprintf "%s eq=%s spec_eq=%s model_law=%s model_hashneed=%s" id eq sp (tf all_streams_eq) need
+
 let () =
   let family = Sys.argv.(1) in
   let ic = open_in Sys.argv.(2) in
@@ -110,6 +122,7 @@ let () =
                 (match family with
                  | "val" -> run_val id fields
                  | "marshal" -> run_marshal id fields
+                 | "equal" -> run_equal id fields
                  | f -> failwith ("unknown family " ^ f))
             | _ -> failwith "case expected"
           with Failure m -> "DRIVER-ERROR " ^ m
